@@ -74,13 +74,15 @@ def write_cfg(ctx, name, mode, maxp, maxa, mod=1, rem=0, emit=False, parts=1, pa
 
 
 def tlc_batch(ctx, jobs):
-    """Run several TLC processes concurrently.  job = (label, cfg path, workers).  Returns results in order."""
+    """Run several TLC processes concurrently (at most 14 JVMs at a time, in the order given).
+    job = (label, cfg path, workers[, extra run_tlc keywords]).  Returns results in order."""
     from concurrent.futures import ThreadPoolExecutor
-    with ThreadPoolExecutor(max_workers=len(jobs)) as ex:
-        futs = [ex.submit(run_tlc, 'Signature', cfg, workers=w, timeout=6000) for (_, cfg, w) in jobs]
+    with ThreadPoolExecutor(max_workers=min(14, len(jobs))) as ex:
+        futs = [ex.submit(run_tlc, 'Signature', j[1], workers=j[2], timeout=6000, **(j[3] if len(j) > 3 else {}))
+                for j in jobs]
         out = [f.result() for f in futs]
-    for (label, _, _), res in zip(jobs, out):
-        ctx.add_tlc(res, label)
+    for j, res in zip(jobs, out):
+        ctx.add_tlc(res, j[0])
     return out
 
 
@@ -849,7 +851,11 @@ def run(ctx):
 
     # 1. TLC: Design |= Reference exhaustively in the three modes, and emission of the slices to replay,
     #    all concurrently (in wrap mode MaxArgs bounds the wrapper's own parameters)
-    plan = [('index', 3, 2, 12, 200000), ('render', 3, 0, 2, 3000), ('wrap', 2, 1, 2, 5000)] if quick else \
+    fast = bool(os.environ.get('VERIF_C11_FAST'))   # development knob (mutation experiments): tiny exhaustive runs
+    if fast:
+        ctx.notes.append('VERIF_C11_FAST set: exhaustive TLC runs reduced; not a full check')
+    plan = [('index', 2, 1, 4, 1000), ('render', 2, 0, 2, 100), ('wrap', 1, 1, 2, 100)] if fast else \
+           [('index', 3, 2, 12, 200000), ('render', 3, 0, 2, 3000), ('wrap', 2, 1, 2, 5000)] if quick else \
            [('index', 4, 3, 14, 3000000), ('render', 4, 0, 2, 30000), ('wrap', 3, 2, 6, 100000)]
     emits = [('index', 3, 2, 131, 6, 1500), ('render', 3, 0, 7, 1, 300), ('wrap', 2, 1, 17, 1, 300)] if quick else \
             [('index', 4, 2, 19, 8, 40000), ('index', 3, 3, 41, 8, 20000), ('render', 4, 0, 3, 2, 3000),
@@ -859,25 +865,37 @@ def run(ctx):
         jobs.append(('Design|=Reference exhaustive mode=%s MaxParams=%d MaxArgs=%d' % (mode, maxp, maxa),
                      write_cfg(ctx, 'mc_%s.cfg' % mode, mode, maxp, maxa), workers))
         roles.append(('mc', mode, floor))
+    cache = os.environ.get('VERIF_C11_CASES')       # development knob: reuse emitted cases (they do not depend on the repo)
+    cached = None
+    if cache and os.path.exists(cache):
+        with open(cache) as f:
+            cached = json.load(f)
+        ctx.notes.append('VERIF_C11_CASES set: emitted cases loaded from a previous run; not a full check')
     for n, (mode, maxp, maxa, mod, parts, floor) in enumerate(emits):
-        for part in range(parts):
+        for part in range(parts if cached is None else 0):
             cfg = write_cfg(ctx, 'emit_%d_%d.cfg' % (n, part), mode, maxp, maxa, mod, ctx.seed % mod, True, parts, part)
             jobs.append(('case emission mode=%s MaxParams=%d MaxArgs=%d slice %d mod %d part %d/%d'
                          % (mode, maxp, maxa, ctx.seed % mod, mod, part, parts), cfg, 1))
             roles.append(('emit', n, None))
+    if not quick and not fast:
+        # beyond the exhaustive bounds: random walks up to the quantifier's 6 parameters x 5 arguments
+        jobs.append(('Design|=Reference simulation mode=index MaxParams=6 MaxArgs=5',
+                     write_cfg(ctx, 'sim_index.cfg', 'index', 6, 5), 4,
+                     dict(simulate='num=6000', depth=24, seed=ctx.seed + 1)))
+        roles.append(('sim', 'index', 20000))
     ctx.log('TLC: %d runs (exhaustive %s; emission %s)' % (len(jobs), [p[:3] for p in plan], [e[:5] for e in emits]))
     results = tlc_batch(ctx, jobs)
     emitted = [[] for _ in emits]
     seen = set()
     for (role, x, floor), res in zip(roles, results):
-        if role == 'mc':
+        if role in ('mc', 'sim'):
             if res.violated:
                 raise MachineryError('Signature.tla mode=%s: design violates reference beyond the named deviations '
                                      '(%s); replay the state on the real code, then either name the deviation '
                                      '(known finding) or correct the model:\n%s' % (x, res.violated, res.trace[-1:]))
             if res.distinct < floor:
                 raise MachineryError('vacuity: mode=%s only %d states' % (x, res.distinct))
-            ctx.log('  exhaustive mode=%s: %d states, %.0fs' % (x, res.distinct, res.wall))
+            ctx.log('  %s mode=%s: %d states, %.0fs' % ('exhaustive' if role == 'mc' else 'simulation', x, res.distinct, res.wall))
         else:
             for c in cases(res):
                 k = json.dumps(c, sort_keys=True)
@@ -886,6 +904,11 @@ def run(ctx):
                     c['mode'] = emits[x][0]
                     emitted[x].append(c)
     ctx.coverage['exhaustive'] = True
+    if cached is not None:
+        emitted = cached
+    elif cache:
+        with open(cache, 'w') as f:
+            json.dump(emitted, f)
     for (mode, maxp, maxa, mod, parts, floor), cs in zip(emits, emitted):
         ctx.log('  emitted mode=%s %d/%d: %d cases' % (mode, maxp, maxa, len(cs)))
         if len(cs) < floor:
@@ -945,9 +968,10 @@ def run(ctx):
                 ctx.violation(key0 + ':crash:' + r['exc'].split('@')[0], 'docstring() raised: %s' % r['exc'], r)
                 continue
             ev = []
-            for raw, full, sg in ((r['raw'], r['full'], '\n'.join(r['sigs'])), (r['sraw'], r['sfull'], r['ssig'])):
+            for raw, full, sg, cf in ((r['raw'], r['full'], '\n'.join(r['sigs']), True),
+                                      (r['sraw'], r['sfull'], r['ssig'], False)):
                 ev.append({'k': 'doc', 'raw': jutil.enc(raw), 'exp': jutil.enc(r['exp']), 'full': jutil.enc(full),
-                           'sig': jutil.enc(sg)})
+                           'sig': jutil.enc(sg), 'cf': cf})
             traces.append(ev)
             trace_obs.append(r)
         else:
